@@ -340,7 +340,11 @@ def check(prog, rep):
             want = spec(which, sh)
             if which == "all":
                 want = M * want
-            got, ex, out = run_extractor(prog, which, sh)
+            try:
+                got, ex, out = run_extractor(prog, which, sh)
+            except AnalysisError as e:
+                rep.undecided(f"{fi.name} on {sh.label()}: {e}")
+                continue
             # vector kinds: member/element contributions are compared per element
             if sh.kind in ("LinearCombination", "VectorSum"):
                 ok, got_s, want_s = _vector_case(which, sh, got, ex)
@@ -354,9 +358,9 @@ def check(prog, rep):
                    f"shape {sh.label()} is accepted as linear by the degree analysis, but {fi.name} yields {got_s[:60]} instead of {want_s[:60]}"
                    + (" (silent default): the extracted LP is a different model" if silent else ""),
                    loc=f"{fi.module.rel}:{where}", detail=sh.label())
-    _shortcuts(prog, rep)
-    _senses(prog, rep)
-    _alignment(prog, rep)
+    rep.section(_shortcuts, prog, rep)
+    rep.section(_senses, prog, rep)
+    rep.section(_alignment, prog, rep)
     rep.expect_min("R05.", 130)
     rep.expect_min("R05.3", 6)
     rep.expect_min("R05.4", 5)
